@@ -105,6 +105,49 @@ def build_groups(ctx: Ctx):
                 rules = [dict(r, methods=None) for r in rules]
             cases = [(p, "GET", rt.NOQ) for p in rt.FAMILY_PATHS] + [(p, "GET", rng.choice(rt.QUERIES[1:])) for p in rt.FAMILY_PATHS[::3]]
             groups.append((rt.make_cfg(rules, rng.random() < 0.7, rng.random() < 0.8, True, bind), False, cases))
+    # (g) subdomain binding: Map(default_subdomain) x rule subdomain (not given / "" / www / api) x bind(subdomain not
+    #     given / "" / www / api) and bind_to_environ(server_name=...) with the request host = server name or a subdomain
+    for dsub in ("www", ""):
+        for rs in (None, "", "www", "api"):
+            other = {None: "api", "": "www", "www": "", "api": None}[rs]
+            fam = [rt.rule([rt.lit("b")], branch=True, endpoint="sb"),
+                   rt.rule([rt.lit("all")], branch=True, endpoint="sd", defaults=[rt._d("pg", 1)]),
+                   rt.rule([rt.lit("all"), rt.lit("page"), rt.var("int", "pg")], endpoint="sd"),
+                   rt.rule([rt.lit("canon"), rt.var("string", "n")], endpoint="sc"),
+                   rt.rule([rt.lit("old"), rt.var("string", "n")], branch=True, endpoint="sc", alias=True)]
+            fam = [dict(r, sub=rs) for r in fam]
+            distract = [dict(rt.rule([rt.lit("b")], endpoint="ob"), sub=other),
+                        dict(rt.rule([rt.lit("all"), rt.lit("page"), rt.var("int", "pg")], branch=True, endpoint="od"), sub=other)]
+            binds = [{"via": "bind", "bsub": bs} for bs in (None, "", "www", "api")]
+            binds += [{"via": "environ_sn", "bsub": bs} for bs in ("", "www", "api")]
+            for bx in binds:
+                rules = [dict(r) for r in fam + distract]
+                rng.shuffle(rules)
+                bind = dict(rt.DEFAULT_BIND, server=rng.choice(["example.org", "example.org:8080"]),
+                            script=rng.choice(["/", "/app"]), **bx)
+                paths = ["/b", "/b/", "/x//b", "/b//", "/all/page/1", "/all/page/2", "/all", "/all//page/1", "/old/me", "/old/me/",
+                         "/canon/me", "//evil.com/b", "/all/page/1/"]
+                cases = [(p, "GET", rng.choice(rt.QUERIES[:3])) for p in paths]
+                cfg = rt.make_cfg(rules, True, True, True, bind)
+                cfg["map"]["dsub"] = dsub
+                groups.append((cfg, False, cases))
+    # (h) method spelling: match(method=...), dispatch(method=...), bind(default_method=...) in lower / mixed / upper case on
+    #     maps whose alias / defaults rules (and their canonical rules) declare methods
+    spell_maps = [[dict(r, methods=["GET", "POST"]) for r in tpl] for tpl in rt.alias_groups()]
+    fams = rt.defaults_families()
+    spell_maps += [[dict(r, methods=["GET", "POST"]) for r in f] for f in (rng.sample(fams, 10) if q else fams)]
+    combos = [(sp, call) for sp in ("post", "Post", "get", "Get", "GET", "POST", "head", "pOsT") for call in ("match", "dispatch", "default")]
+    for k, rules in enumerate(spell_maps):
+        rules = [dict(r) for r in rules]
+        rng.shuffle(rules)
+        paths = rt.alias_group_paths(rules, rng, 12) if any(r["alias"] for r in rules) else rng.sample(rt.FAMILY_PATHS, 12)
+        cases = []
+        for j, p in enumerate(paths):
+            for d in range(3):
+                sp, call = combos[(k * 7 + j * 3 + d * 5) % len(combos)]
+                qq = rt.NOQ if call == "dispatch" else rng.choice(rt.QUERIES[:2])
+                cases.append((p, sp.upper(), qq, {"call": call, "spell": sp}))
+        groups.append((rt.make_cfg(rules, True, rng.random() < 0.8, True, rng.choice(rt.BINDS[:3])), False, cases))
     # (b) random maps with defaults / alias pairs and per-rule overrides
     for _ in range(220 if q else 2500):
         rules = rt.c12_rules(rng, rng.randint(2, 6))
